@@ -376,7 +376,7 @@ def find_largest_size_bounded_curvature(DX, diam_X, d):
         # Pick a row (and column) with highest number of off-diagonal
         # distances < d, then with smallest sum of off-diagonal
         # distances ≥ d.
-        K_rows_sortkeys = -np.sum(K < d, axis=0) * (len(K) * diam_X) + \
+        K_rows_sortkeys = -np.sum(K < d, axis=0) * (len(K) * int(diam_X)) + \
                       np.sum(np.ma.masked_less(K, d), axis=0).data
         row_to_remove = np.argmin(K_rows_sortkeys)
         # Remove the row and column from K.
@@ -495,7 +495,7 @@ def represent_distance_matrix_rows_as_distributions(DX, max_d):
         DX + 1j * np.arange(len(DX))[:, None], return_counts=True)
     # Type is signed integer to allow subtractions.
     optimal_int_type = determine_optimal_int_type(len(DX))
-    DX_rows_distributons = np.zeros((len(DX), max_d + 1), dtype=optimal_int_type)
+    DX_rows_distributons = np.zeros((len(DX), int(max_d) + 1), dtype=optimal_int_type)
     # Construct index pairs for distance frequencies, so that the
     # frequencies of larger distances appear on the left.
     distance_frequencies_index_pairs = \
@@ -566,6 +566,9 @@ def check_assignment_feasibility(v_distribution, u_distribution, d):
     is_assignment_feasible: bool
         Whether such injective f: {1,...,p} → {1,...,q} exists.
     """
+    # Python int: d may be a narrow NumPy scalar (int8) that would overflow in the index arithmetic.
+    d = int(d)
+
     def next_i_and_j(min_i, min_j):
         # Find reversed v distribution index of smallest v entries yet
         # to be assigned. Then find index in reversed u distribution of
